@@ -205,7 +205,7 @@ Proof.
       * intros id. rewrite Ed. auto.
       * intros id Hi. left. rewrite Eb. apply in_or_app. auto.
       * not_waiting.
-    + destruct (c_async c); [destruct (s_pc st) eqn:PC; try discriminate|]; inversion H; subst;
+    + destruct (s_pc st) eqn:PC; try discriminate; inversion H; subst;
         (apply (WaitInv_client_same st); [assumption|same_fields..|not_waiting]).
   - (* KWaitAfterSend *)
     destruct (s_closed st); inversion H; subst.
@@ -529,7 +529,7 @@ Proof.
   - destruct (buf_send c st (IDelete k c0)) as [st1|] eqn:E.
     + inversion H; subst. apply buf_send_frame in E. destruct E as (Es & Est & _ & Ep & _).
       apply (ClearEmpty_frame st); [assumption|sproj; congruence..|sproj; intros X; rewrite Est; assumption].
-    + destruct (c_async c); [destruct (s_pc st) eqn:PC; try discriminate|]; inversion H; subst; ce_same CE st.
+    + destruct (s_pc st) eqn:PC; try discriminate; inversion H; subst; ce_same CE st.
   - destruct (s_closed st); inversion H; subst; ce_same CE st.
   - destruct (mem_N id (s_done st)); [|discriminate]. inversion H; subst. ce_same CE st.
   - destruct (mem_N id (s_done st)); [|discriminate]. destruct closing; inversion H; subst; ce_same CE st.
